@@ -114,7 +114,9 @@ class World:
 
     def _make(self, nu, r, X):
         dct = {IDS[i]: n[0] / n[1] for i, n in enumerate(nu) if n[0]}
-        return tmo.Reaction(dct, reactant=IDS[r - 1], X=X[0] / X[1], chemicals=self.th.chemicals)
+        # (conversions 0 and 1 are given as Python integers, as users write them: the conversions of a set built from such
+        # reactions must still take fractional values later)
+        return tmo.Reaction(dct, reactant=IDS[r - 1], X=(X[0] // X[1] if X[0] % X[1] == 0 else X[0] / X[1]), chemicals=self.th.chemicals)
 
     # ---- operations -----------------------------------------------------------------------------
     def apply(self, op, a):
